@@ -168,10 +168,12 @@ pub fn c12(ctx: &Ctx) -> (CheckMeta, Outcome) {
                 l2.extend(bnd.clone());
                 alphabets.push(l2);
                 let mut l3 = io_few.clone();
+                l3.push(WOp::IoFlush);
                 if thorough {
                     l3.extend(bnd.clone());
                 } else {
                     l3.truncate(4);
+                    l3.push(WOp::IoFlush);
                     l3.push(WOp::Flush);
                     l3.push(WOp::WriteBits { v: 1, n: 1 });
                     l3.push(WOp::WriteBits { v: pats[3] & mask(wbits.min(64) as u8 - 1), n: wbits.min(64) as u8 - 1 });
@@ -193,7 +195,7 @@ pub fn c12(ctx: &Ctx) -> (CheckMeta, Outcome) {
     let meta = CheckMeta {
         property: "C12".into(),
         level: "model_checking".into(),
-        rule: "write side: BFS over the real BufBitWriter for E x W in {8..128}: level 0 reaches every buffer fill level (every starting bit offset), then std::io::Write::write of every slice length 0..=40 (two byte patterns) and 41,47,48,49,63,64,65,100, then further byte writes / boundary bit writes / flush; returned count must equal the slice length, delivered words and final images on all real backends must equal the model (byte = 8 stream bits in stream order); read side: BFS to the fixpoint of every reader kind over zero-extended/strict/Cursor backends with io::Read of every length 0..=40 at every reachable state".into(),
+        rule: "write side: BFS over the real BufBitWriter for E x W in {8..128}: level 0 reaches every buffer fill level (every starting bit offset), then std::io::Write::write of every slice length 0..=40 (two byte patterns) and 41,47,48,49,63,64,65,100, then further byte writes / boundary bit writes / flush / io::Write::flush; returned count must equal the slice length, delivered words and final images on all real backends must equal the model (byte = 8 stream bits in stream order); read side: BFS to the fixpoint of every reader kind over zero-extended/strict/Cursor backends with io::Read of every length 0..=40 at every reachable state".into(),
         assumptions: vec!["reference model = canonical layout".into()],
     };
     (meta, out)
